@@ -107,12 +107,14 @@ TimeSufficient(F) == {"hour_div_12", "hour_mod_12", "minute"} \subseteq F /\ ("n
 IsFrac(it) == (it.k = "Num" /\ it.n = "Nanosecond") \/ (it.k = "Fix" /\ it.f \in FracFixes)
 OffsetItems(w) == { i \in 1..Len(w) : w[i].k = "Fix" /\ w[i].f \in {"TimezoneOffset", "TimezoneOffsetColon", "TimezoneOffsetTripleColon", "RFC3339"} }
 OffsetPrec(it) == IF it.f = "TimezoneOffsetTripleColon" THEN "H" ELSE "M"
+\* a timestamp printed NEXT TO a complete civil date, time and offset is redundant: the civil fields decide, the timestamp is cross-checked
+Redundant(F, pty) == "timestamp" \in F /\ pty = "dt" /\ DateSufficient(F) /\ TimeSufficient(F) /\ "offset" \in F
 Unambiguous(w, r, pty) ==
    LET F == Fields(r) IN
    /\ PairOK(w, r) /\ Separated(w, r)
    /\ Cardinality({ i \in 1..Len(w) : IsFrac(w[i]) }) <= 1 /\ ~(\E i, j \in 1..Len(w) : IsFrac(w[i]) /\ w[j] = Fix("RFC3339"))
    /\ Cardinality({ OffsetPrec(w[i]) : i \in OffsetItems(w) }) <= 1
-   /\ IF "timestamp" \in F
+   /\ IF "timestamp" \in F /\ ~Redundant(F, pty)
       THEN /\ pty \in {"ndt", "dt"} /\ F \subseteq {"timestamp", "nanosecond", "offset"}   \* %s [fraction] [offset]
            /\ (pty = "ndt" => "offset" \notin F)                                             \* a naive date-time has no offset to apply
       ELSE /\ (pty \in {"date", "ndt", "dt"} => DateSufficient(F))
@@ -139,7 +141,7 @@ ProjTime(w, F, v) == IF "second" \in F
 \* v is the wall-clock value that was formatted; the result has the fields of the parsed type
 Project(w, r, v, pty) ==
    LET F == Fields(r)  off2 == ProjOff(w, v.off) IN
-   IF "timestamp" \in F
+   IF "timestamp" \in F /\ ~Redundant(F, pty)
    THEN \* the instant, to the printed fraction; shown at the printed offset (at UTC if no offset is printed:
         \* "a timestamp where the target type needs one" stands in for the offset)
         LET t == v.secs - v.off + off2
@@ -166,7 +168,8 @@ PivotFits(F, v) == /\ ("year_mod_100" \in F /\ "year" \notin F /\ "year_div_100"
 Expressible(w, r, v, pty) ==
    LET F == Fields(r)  off2 == ProjOff(w, v.off) IN
    /\ (v.hd => YearFits(w, v))
-   /\ IF "timestamp" \in F
+   /\ (Redundant(F, pty) => off2 = v.off)                                 \* the printed offset must be the exact one, or timestamp and civil fields disagree
+   /\ IF "timestamp" \in F /\ ~Redundant(F, pty)
       THEN /\ v.frac < NSu                                               \* %s cannot carry a leap second
            /\ Abs1(off2) < 86400
            /\ InDates(v.n + ((v.secs - v.off + off2) \div 86400)) /\ InDates(v.n + ((v.secs - v.off) \div 86400))
@@ -238,6 +241,7 @@ DtCands(stride) == { [ty |-> "dt", fw |-> NdtBody(bc[1], bc[2], p, bc[1] + bc[2]
                          bc \in { x \in (1..Len(DateBlocks)) \X (1..Len(TimeBlocks)) : (x[1] + x[2] + 1) % stride = 0 }, p \in 1..Len(Pads) }
                    \cup { [ty |-> "dt", fw |-> WithPadFrom(S(StampBlocks[b]), 1, Pads[p]) \o S(o)] : b \in 1..Len(StampBlocks), p \in 1..Len(Pads), o \in {"", " %z", "%:z"} }
                    \cup { [ty |-> "dt", fw |-> S(WholeDt[b])] : b \in 1..Len(WholeDt) }
+                   \cup { [ty |-> "dt", fw |-> S(x)] : x \in { "%Y-%m-%dT%H:%M:%S%.f%:z @%s", "%s %Y-%m-%d %H:%M:%S %z", "%+ %s", "%s = %G-W%V-%u %I:%M:%S%.3f %p %:z" } }
 \* read-only %#z: the same format with its (last) offset specifier written as %z, %:z or %:::z and read as %#z
 PermCands == { [ty |-> "dt", fw |-> NdtBody(b, b, 1, b) \o S(o[1]) \o S(o[2]), fr |-> NdtBody(b, b, 1, b) \o S(o[1]) \o S("%#z")] :
                   b \in 1..10, o \in { <<"", "%z">>, <<" ", "%:z">>, <<" ", "%:::z">>, <<"", "%:::z">> } }
